@@ -115,6 +115,10 @@ func tagToField(input reflect.Value, tagType TagType) map[string]reflect.Value {
 			names = append(names, multirefs...)
 
 			for _, name := range names {
+				// A missing multiref tag yields an empty name.
+				if name == "" {
+					continue
+				}
 				ttf[name] = field
 			}
 		case Doc:
